@@ -309,6 +309,8 @@ def sessStep (s : S) (f : List String) : S × List String :=
     match pol with
     | some x => done (s.release x) []
     | none => (s, ["bad-op wgo"])
+  | ["cpol", _] => (s, ["unsupported slow Close of the connection"])
+  | ["cgo"] => (s, ["unsupported slow Close of the connection"])
   | ["exhold"] => ({ s with holdEx := true }, [])
   | ["exread"] =>
     let late := s.heldEx.foldl (fun acc e => insertLate e acc) []
